@@ -1,1 +1,192 @@
-// placeholder
+//! C18 — the handshake carries exactly the configured connection options.
+use crate::common::*;
+use bytes::BytesMut;
+use insim::identifiers::RequestId;
+use insim::insim::{Isi, IsiFlags};
+use insim::net::blocking_impl::Framed;
+use insim::net::{Codec, Mode};
+use insim::{Builder, Packet};
+use std::io::{Read, Write};
+use std::net::SocketAddr;
+use std::time::Duration;
+
+fn step(b: Builder, which: u8, on: bool, model: &mut u16) -> Builder {
+    // the bit each setter is documented to control, from the InSim.txt ISF_ table
+    let (b, bit) = match which {
+        0 => (b.isi_flag_local(on), 4u16),
+        1 => (b.isi_flag_mso_cols(on), 8),
+        2 => (b.isi_flag_nlp(on), 16),
+        3 => (b.isi_flag_mci(on), 32),
+        4 => (b.isi_flag_con(on), 64),
+        5 => (b.isi_flag_obh(on), 128),
+        6 => (b.isi_flag_hlv(on), 256),
+        7 => (b.isi_flag_axm_load(on), 512),
+        8 => (b.isi_flag_axm_edit(on), 1024),
+        _ => (b.isi_flag_req_join(on), 2048),
+    };
+    if on { *model |= bit; } else { *model &= !bit; }
+    b
+}
+
+/// A symbolic builder program: wholesale flag replacement (optional), then four setter calls with
+/// symbolic choice of setter and value (so any setter may repeat and override), another optional
+/// wholesale replacement in between; prefix / interval / request id present or absent;
+/// tcp / udp with and without local address / relay.
+#[kani::proof]
+#[kani::unwind(20)]
+#[kani::stub(alloc::fmt::format, stub_format)]
+fn c18_builder_program() {
+    let mut b = Builder::default();
+    let mut model: u16 = 0;
+    if kani::any() {
+        let f: u16 = kani::any();
+        let fl = IsiFlags::from_bits_truncate(f);
+        model = fl.bits();
+        b = b.isi_flags(fl);
+    }
+    let mut k = 0;
+    while k < 4 {
+        let which: u8 = kani::any();
+        kani::assume(which < 10);
+        b = step(b, which, kani::any(), &mut model);
+        if k == 1 && kani::any() {
+            let f: u16 = kani::any();
+            let fl = IsiFlags::from_bits_truncate(f);
+            model = fl.bits();
+            b = b.isi_flags(fl);
+        }
+        k += 1;
+    }
+    let set_prefix: bool = kani::any();
+    let pc: u8 = kani::any();
+    kani::assume(pc < 0x80);
+    if set_prefix { b = b.isi_prefix(pc as char); }
+    let set_interval: bool = kani::any();
+    let ims: u16 = kani::any();
+    if set_interval { b = b.isi_interval(Duration::from_millis(ims as u64)); }
+    let set_reqi: bool = kani::any();
+    let rq: u8 = kani::any();
+    if set_reqi { b = b.isi_reqi(RequestId(rq)); }
+    let proto: u8 = kani::any();
+    kani::assume(proto < 4);
+    let port: u16 = kani::any();
+    let remote = SocketAddr::from(([127, 0, 0, 1], 29999));
+    let local = SocketAddr::from(([0, 0, 0, 0], port));
+    b = match proto {
+        0 => b.tcp(remote),
+        1 => b.udp(remote, Some(local)),
+        2 => b.udp(remote, None),
+        _ => b.relay(),
+    };
+    let isi = b.isi();
+    assert!(isi.flags.bits() == model, "C18:flags are exactly the configured flags");
+    assert!(isi.prefix as u32 == if set_prefix { pc as u32 } else { 0 }, "C18:prefix as configured, default 0");
+    assert!(isi.interval == if set_interval { Duration::from_millis(ims as u64) } else { Duration::ZERO }, "C18:interval as configured, default 0");
+    assert!(isi.reqi.0 == if set_reqi { rq } else { 0 }, "C18:request id as configured, default 0");
+    assert!(isi.udpport == if proto == 1 { port } else { 0 }, "C18:udp port is the local port, otherwise 0");
+    assert!(isi.version == 9, "C18:InSim version 9");
+    assert!(isi.iname.as_bytes() == b"insim.rs", "C18:default program name");
+    assert!(isi.admin.is_empty(), "C18:default admin password empty");
+    kani::cover!(proto == 2, "udp without a local address");
+    kani::cover!(model == 0x0FFC, "all ten flags set");
+    std::mem::forget(isi);
+    std::mem::forget(b);
+}
+
+/// name and password: later calls override earlier ones, None restores the default
+#[kani::proof]
+#[kani::unwind(20)]
+#[kani::stub(alloc::fmt::format, stub_format)]
+fn c18_builder_strings() {
+    let mut b = Builder::default();
+    let first: bool = kani::any();
+    if first { b = b.isi_iname(String::from("first")).isi_admin_password(String::from("pw1")); }
+    let second: u8 = kani::any();
+    kani::assume(second < 3);
+    b = match second {
+        0 => b,
+        1 => b.isi_iname(String::from("second")).isi_admin_password(String::from("pw2")),
+        _ => b.isi_iname(None).isi_admin_password(None),
+    };
+    let isi = b.isi();
+    let (en, ep): (&[u8], &[u8]) = match (first, second) {
+        (_, 1) => (b"second", b"pw2"),
+        (_, 2) => (b"insim.rs", b""),
+        (true, _) => (b"first", b"pw1"),
+        _ => (b"insim.rs", b""),
+    };
+    assert!(isi.iname.as_bytes() == en, "C18:program name as configured");
+    assert!(isi.admin.as_bytes() == ep, "C18:admin password as configured");
+    kani::cover!(first && second == 2, "cleared after being set");
+    std::mem::forget(isi);
+    std::mem::forget(b);
+}
+
+static mut OUT: [u8; 64] = [0; 64];
+static mut OUTLEN: usize = 0;
+static mut WRITES: usize = 0;
+#[derive(Debug)]
+struct Rec;
+impl Read for Rec {
+    fn read(&mut self, _b: &mut [u8]) -> std::io::Result<usize> { Ok(0) }
+}
+impl Write for Rec {
+    fn write(&mut self, buf: &[u8]) -> std::io::Result<usize> {
+        let mut i = 0;
+        unsafe {
+            WRITES += 1;
+            while i < buf.len() && OUTLEN < 64 { OUT[OUTLEN] = buf[i]; OUTLEN += 1; i += 1; }
+        }
+        Ok(buf.len())
+    }
+    fn flush(&mut self) -> std::io::Result<()> { Ok(()) }
+}
+
+/// handshake over a recording transport: exactly the ISI frame and nothing else, in the configured
+/// mode. The builder configuration is concrete apart from the request id: Codec::encode over a
+/// symbolic 44-byte ISI does not close (16 GB / 40 min, DESIGN.md section 8); the ISI field mapping
+/// for every value is the subject of c01/c02_isi_*, the builder's of c18_builder_program.
+macro_rules! handshake {
+    ($name:ident, $compressed:expr) => {
+        #[kani::proof]
+        #[kani::unwind(70)]
+        #[kani::stub(alloc::fmt::format, stub_format)]
+        #[kani::stub(insim_core::string::codepages::to_lossy_bytes, stub_to_lossy_bytes)]
+        fn $name() {
+            let compressed: bool = $compressed;
+            let rq: u8 = kani::any();
+            let mut b = Builder::default()
+                .isi_flag_mci(true)
+                .isi_flag_con(true)
+                .isi_reqi(RequestId(rq))
+                .isi_prefix('!')
+                .isi_interval(Duration::from_millis(1000));
+            b = if compressed { b.compressed() } else { b.uncompressed() };
+            let isi = b.isi();
+            let mode = if compressed { Mode::Compressed } else { Mode::Uncompressed };
+            let mut fr = Framed::new(Box::new(Rec), Codec::new(mode));
+            let r = fr.handshake(isi);
+            assert!(r.is_ok(), "C18:handshake succeeds on a healthy transport");
+            unsafe {
+                assert!(OUTLEN == 44, "C18:exactly one 44-byte ISI frame is sent");
+                assert!(OUT[0] == if compressed { 11 } else { 44 }, "C18:size byte in the configured mode");
+                assert!(OUT[1] == 1, "C18:first frame is ISI");
+                assert!(OUT[2] == rq && OUT[3] == 0, "C18:ReqI, Zero");
+                assert!(OUT[4] == 0 && OUT[5] == 0, "C18:UDPPort 0 for TCP");
+                assert!(OUT[6] == 96 && OUT[7] == 0, "C18:Flags MCI|CON");
+                assert!(OUT[8] == 9 && OUT[9] == b'!', "C18:InSimVer, Prefix");
+                assert!(OUT[10] == 0xE8 && OUT[11] == 0x03, "C18:Interval 1000 ms");
+                let j: usize = kani::any();
+                kani::assume(j < 16);
+                assert!(OUT[12 + j] == 0, "C18:empty admin password");
+                let name = b"insim.rs";
+                assert!(OUT[28 + j] == if j < 8 { name[j] } else { 0 }, "C18:program name NUL padded");
+            }
+            std::mem::forget(r);
+            std::mem::forget(fr);
+            std::mem::forget(b);
+        }
+    };
+}
+handshake!(c18_handshake_compressed, true);
+handshake!(c18_handshake_uncompressed, false);
